@@ -27,7 +27,52 @@ mod a {
     include!("c07_body.rs");
 }
 
+/// an element type whose `+` and `-` are not commutative / not symmetric
+#[derive(Clone, Copy, PartialEq, Eq, Debug, Hash)]
+struct Nc(i64);
+impl core::ops::Add for Nc {
+    type Output = Nc;
+    fn add(self, r: Nc) -> Nc {
+        Nc(self.0.wrapping_mul(3).wrapping_add(r.0))
+    }
+}
+impl core::ops::Sub for Nc {
+    type Output = Nc;
+    fn sub(self, r: Nc) -> Nc {
+        Nc(self.0.wrapping_mul(5).wrapping_sub(r.0))
+    }
+}
+
+/// element-wise `+` / `-` of the Vec backend are generic in the element type: out[i] = self[i] op rhs[i]
+fn generic_elementwise(t: &mut Tape, ctx: &mut Ctx) -> CheckResult {
+    use crate::ensure;
+    use open_hypergraphs::array::vec::VecArray;
+    ctx.class("group:generic-elementwise");
+    let n = t.range(0, 12);
+    let x: Vec<Nc> = (0..n).map(|_| Nc(t.choice(9) as i64 - 4)).collect();
+    let y: Vec<Nc> = (0..n).map(|_| Nc(t.choice(9) as i64 - 4)).collect();
+    ctx.set_dump(format!("x = {:?} y = {:?}", x, y));
+    ctx.sub("elementwise-add-sub-generic");
+    let s = VecArray(x.clone()) + VecArray(y.clone());
+    let want: Vec<Nc> = x.iter().zip(&y).map(|(a, b)| *a + *b).collect();
+    ensure!(ctx, s.0 == want, "elementwise-add-sub-generic", "x + y = {:?} want {:?} (element type with a non-commutative +)", s.0, want);
+    let d = VecArray(x.clone()) - VecArray(y.clone());
+    let want: Vec<Nc> = x.iter().zip(&y).map(|(a, b)| *a - *b).collect();
+    ensure!(ctx, d.0 == want, "elementwise-add-sub-generic", "x - y = {:?} want {:?}", d.0, want);
+    if n >= 2 {
+        ctx.nontrivial(&("generic-elementwise", &x, &y));
+    }
+    Ok(())
+}
+
 fn check(t: &mut Tape, ctx: &mut Ctx) -> CheckResult {
+    {
+        let mut probe = t.clone();
+        if probe.choice(25) == 0 {
+            t.word();
+            return generic_elementwise(t, ctx);
+        }
+    }
     // self-check of the harness's second backend on the same case, in a tape-chosen configuration
     let mut t2 = t.clone();
     let r = v::run(t, ctx);
